@@ -22,6 +22,7 @@
 import gzip
 import io
 import logging
+import zlib
 from contextlib import contextmanager, nullcontext
 
 import numpy as np
@@ -34,7 +35,8 @@ def gzip_inspected(open_file):
     try:
         file_object = gzip.GzipFile(mode="rb", fileobj=open_file)
         file_object.read(1)
-    except OSError:
+    except (OSError, EOFError, zlib.error):
+        # not a gzip stream, or a truncated / damaged one
         file_object = open_file
     finally:
         file_object.seek(0)
